@@ -881,6 +881,7 @@ pub fn gen_caps(rng: &mut Rng, sink16: bool, allow_small: bool) -> Vec<usize> {
 }
 
 pub fn emit(out: &mut Out, p: &Plan, props: &[&str]) {
+    trace_op(&plan_lhs(p));
     let o = run_plan(p, 0);
     // the model states the contract for capacities at or above the documented
     // minimum; below it only the bounds oracles apply
